@@ -25,7 +25,8 @@ RULE = ("per-run seed -> 2-4 writer actors (simulated threads and/or processes; 
         "timeout, no lost update, generation == number of commits, no deadlock and no live-lock (no operation needs more than 200000 "
         "scheduling points), no library thread dies, the lock is polled and never waited on. Non-trivial = >=2 actors, >=1 "
         "commit and >=1 context switch; distinct = distinct event-log SHA-256."
-        ' Line-level pre-emption in 30% of runs; threads may share one Index object; AsyncWriter writerargs may hold a timeout.')
+        ' Line-level pre-emption in 30% of runs; threads may share one Index object; AsyncWriter writerargs may hold a timeout.'
+        ' Later additions: multi-process writers, a BufferedWriter that flushes in mid-life, applications forking a helper while a writer is open (descriptor inheritance), with-blocks whose commit fails in its clean-up (EBUSY on rmdir); clause: LockError only while another writer is open.')
 ASSUMPTIONS = ["a writer's critical section is measured by its effects: from ix.writer() returning to its last mutating storage event, so the check does not depend on the lock model",
                "LockError timing is judged on the simulated clock (every storage operation costs 0.05-2 ms of simulated time)",
                "unique keys per (actor, transaction) make every committed addition attributable"]
